@@ -1328,6 +1328,8 @@ condexpr(struct scope *s)
 	e = eval(e);
 	if (e->kind == EXPRCONST && e->type->prop & PROPINT)
 		return exprconvert(e->u.constant.u ? l : r, t);
+	if (e->kind == EXPRCONST && e->type->prop & PROPFLOAT)
+		return exprconvert(e->u.constant.f != 0 ? l : r, t);
 	e = mkexpr(EXPRCOND, t, e);
 	e->u.cond.t = l;
 	e->u.cond.f = r;
